@@ -1,3 +1,68 @@
-(* placeholder until the proofs are written *)
-From Coq Require Import ZArith.
-Theorem C14_placeholder : True. Proof. exact I. Qed.
+(* C14 - memory address/size widths: explicit, else configured, else smallest; lossless.  Statements only. *)
+From Coq Require Import ZArith List Bool String.
+From UDS Require Import Lib.Bytes Lib.ErrM Lib.PyOps Gen.Maps Model.Message Model.Client Model.Helpers Model.MemLoc
+  Model.Svc_Memory Proofs.Bytes_lemmas Proofs.C14_lemmas.
+Import ListNotations.
+Open Scope Z_scope.
+
+(* precedence, for every address and size 0 .. 2^64-1, every explicit and every configured format: the widths of
+   the location the client transmits are the caller's explicit format, else the configured server format, else the
+   smallest whole number of bytes (at least one) holding the value; they are formats of 1..8 bytes *)
+Theorem C14_precedence : forall cfg addr size af sf m,
+  0 <= addr < 2 ^ 64 -> 0 <= size < 2 ^ 64 ->
+  client_memloc cfg addr size af sf = inr m ->
+  ml_addr m = addr /\ ml_size m = size /\
+  al_addr (ml_alfid m) = chosen_format af (srv_addr cfg) addr /\
+  al_size (ml_alfid m) = chosen_format sf (srv_size cfg) size /\
+  valid_format (al_addr (ml_alfid m)) /\ valid_format (al_size (ml_alfid m)).
+Proof. exact client_memloc_precedence. Qed.
+Print Assumptions C14_precedence.
+
+(* "smallest": it holds the value and no smaller width of at least one byte does *)
+Theorem C14_smallest : forall v, 0 <= v ->
+  v < 256 ^ smallest_bytes v /\ (forall n, 1 <= n -> v < 256 ^ n -> smallest_bytes v <= n) /\ 1 <= smallest_bytes v.
+Proof.
+  intros v Hv. split; [apply smallest_holds; exact Hv|]. split; [intros n; apply smallest_minimal; exact Hv|].
+  unfold smallest_bytes. apply Z.le_max_l.
+Qed.
+Print Assumptions C14_smallest.
+
+Theorem C14_autosize : forall v, 0 <= v ->
+  (v < 2 ^ 64 -> autosize v = inr (8 * smallest_bytes v) /\ 1 <= smallest_bytes v <= 8) /\
+  (2 ^ 64 <= v -> autosize v = inl EValue).
+Proof. exact autosize_spec. Qed.
+Print Assumptions C14_autosize.
+
+(* announced = transmitted, and lossless: the format byte is 16 x (size bytes) + (address bytes); the address and
+   the size follow big-endian in exactly those widths and decode back; a value that does not fit its width (or is
+   negative) is refused instead of being cut *)
+Theorem C14_wire : forall m na ns,
+  1 <= na <= 8 -> 1 <= ns <= 8 ->
+  al_addr (ml_alfid m) = 8 * na -> al_size (ml_alfid m) = 8 * ns ->
+  (0 <= ml_addr m < 256 ^ na /\ 0 <= ml_size m < 256 ^ ns ->
+     memloc_wire m = inr ((16 * ns + na) :: be_enc (Z.to_nat na) (ml_addr m) ++ be_enc (Z.to_nat ns) (ml_size m))) /\
+  (~ (0 <= ml_addr m < 256 ^ na /\ 0 <= ml_size m < 256 ^ ns) -> memloc_wire m = inl EValue).
+Proof. exact memloc_wire_spec. Qed.
+Print Assumptions C14_wire.
+
+Theorem C14_decodes_back : forall n v, 0 <= v < 256 ^ Z.of_nat n ->
+  be_dec (be_enc n v) = v /\ List.length (be_enc n v) = n /\ wf_bytes (be_enc n v).
+Proof. intros n v H. split; [apply be_dec_enc; exact H|]. split; [apply be_enc_length|apply be_enc_wf]. Qed.
+Print Assumptions C14_decodes_back.
+
+(* the server's echo of WriteMemoryByAddress in the same widths (1..8 bytes each) decodes to the same numbers *)
+Theorem C14_echo : forall cfg addr size af sf m na ns r extra,
+  client_memloc cfg addr size af sf = inr m ->
+  1 <= na <= 8 -> 1 <= ns <= 8 ->
+  al_addr (ml_alfid m) = 8 * na -> al_size (ml_alfid m) = 8 * ns ->
+  ml_addr m = addr -> ml_size m = size ->
+  0 <= addr < 256 ^ na -> 0 <= size < 256 ^ ns ->
+  p_data r = (16 * ns + na) :: be_enc (Z.to_nat na) addr ++ be_enc (Z.to_nat ns) size ++ extra ->
+  wmba_interpret cfg addr size af sf r = inr [16 * ns + na; addr; size].
+Proof. exact wmba_echo. Qed.
+Print Assumptions C14_echo.
+
+(* formats other than 8, 16 .. 64 are refused *)
+Theorem C14_formats : forall af sf, ~ valid_format af \/ ~ valid_format sf -> mk_alfid af sf = inl EValue.
+Proof. exact mk_alfid_bad. Qed.
+Print Assumptions C14_formats.
